@@ -4,7 +4,11 @@
 EXTENDS Meta, Json, IOUtils
 (* (kept here, not in Meta.tla: every module that extends Meta would re-evaluate it) *)
 (* C07 as theorems over the whole product of producer / consumer infos *)
-ASSUME \A po \in PInfos, ci \in CInfos :
+(* quick tier: the two "empty mask" forms and the second consumer-side value of the extra field *)
+(* are left to the replay; FULL=1 (thorough tier) quantifies over the whole product            *)
+ThP == IF IOEnv.FULL = "1" THEN PInfos ELSE {i \in PInfos : i.mask \notin {"E", "E0"}}
+ThC == IF IOEnv.FULL = "1" THEN CInfos ELSE {i \in CInfos : i.mask \notin {"E0"} /\ i.foo # "w"}
+ASSUME \A po \in ThP, ci \in ThC :
    LET r == Exchange(po, ci) IN
    /\ (r.res = "ok") <=> ~(GridConflict(po, ci) \/ UnitsConflict(po, ci) \/ MaskConflict(po, ci) \/ Unfillable(po, ci))
    /\ (r.res = "ok") =>
